@@ -5,7 +5,7 @@
       middleware.go      Namespace.runMiddlewares, serverSocket.callMiddlewares, middlewareError.data
       namespace.go       Namespace.add, Namespace.doConnect
       server_conn.go     serverConn.connect, serverConn.connectError
-      server_socket.go   serverSocket.onConnect, cleanup (new), onPacket / onEvent
+      server_socket.go   serverSocket.onConnect, cleanup, Join (holds joinMu for the whole call), onPacket / onEvent
     (doConnect: store, then the connection's tables, then onConnect, then the handler goroutine)
       adapter/adapter_memory.go  AddAll, delete, DeleteAll, SocketRooms, apply (Sockets/Broadcast)
 
@@ -13,7 +13,9 @@
     adapter and chain; the live rig checks that the chain of another namespace never runs).
     Admissions are threads over the shared namespace state; one step is one critical section of
     the code (one adapter call, one store update, one packet handed to the connection's queue,
-    one middleware call).  Schedules are arbitrary. *)
+    one middleware call).  Middlewares may also start Join calls on goroutines of their own; these
+    race with the rest of the admission (in particular with the clean-up after a rejection) under
+    the socket's joinMu.  Schedules are arbitrary. *)
 From SioV Require Import Base.GoSem.
 
 (** * Association lists as Go maps *)
@@ -136,8 +138,9 @@ Inductive rej :=
 Inductive verdict := Accept | Reject (r : rej).
 
 (** What one registered middleware does for one given (socket, handshake): the Join calls it makes
-    on the socket (each a list of named rooms), then its return value. *)
-Record mwb := mkMwb { mb_joins : list (list N); mb_verdict : verdict }.
+    on the socket (each a list of named rooms), its return value, and the Join calls it starts on
+    goroutines of its own (`go socket.Join(...)`), which race with the rest of the admission. *)
+Record mwb := mkMwb { mb_joins : list (list N); mb_verdict : verdict; mb_async : list (list N) }.
 
 (** "message" of the CONNECT_ERROR packet: middlewareError.data + serverConn.connectError *)
 Inductive msg := MText (t : bytes) | MData (d : N).
@@ -180,7 +183,8 @@ Definition server0 : server := mkServer [] adapter0 [] [] [] [].
 
 Inductive pc :=
 | PMw (i : nat)          (* runMiddlewares: about to call middleware i (i = length: chain passed) *)
-| PCleanup (r : rej)     (* add: chain returned an error -> socket.cleanup() *)
+| PDisable (r : rej)     (* add: chain returned an error -> socket.cleanup(): joinMu; s.join = no-op *)
+| PLeave (r : rej)       (* cleanup: s.leaveAll() *)
 | PSendError (r : rej)   (* connect: connectError(mErr.data()) *)
 | PRejected (r : rej)
 | PStore                 (* doConnect: n.sockets.set(socket) *)
@@ -193,18 +197,36 @@ Inductive pc :=
 
 Inductive hstate := HNone | HPending | HRan.
 
+(** A goroutine executing `socket.Join(rooms...)`.  ServerSocket.Join holds joinMu for the whole
+    call: [JNew] = not yet in Join; [JHold] = inside Join with the real join function, joinMu held,
+    adapter.AddAll not done yet; [JDone] = returned. *)
+Inductive jstate := JNew | JHold | JDone.
+Definition jthread := (list N * jstate)%type.
+
 Record adm := mkAdm {
   t_sid   : sid;
   t_conn  : N;
   t_chain : list mwb;
   t_pc    : pc;
-  t_h     : hstate         (* the goroutine started by doConnect *)
+  t_h     : hstate;        (* the goroutine started by doConnect *)
+  t_jen   : bool;          (* s.join is the real function (false: replaced by the no-op) *)
+  t_js    : list jthread   (* Join goroutines started by middlewares *)
 }.
 
-Definition new_adm (s : sid) (c : N) (chain : list mwb) : adm := mkAdm s c chain (PMw 0) HNone.
+Definition new_adm (s : sid) (c : N) (chain : list mwb) : adm := mkAdm s c chain (PMw 0) HNone true [].
 
-Definition with_pc (t : adm) (p : pc) : adm := mkAdm (t_sid t) (t_conn t) (t_chain t) p (t_h t).
-Definition with_h (t : adm) (h : hstate) : adm := mkAdm (t_sid t) (t_conn t) (t_chain t) (t_pc t) h.
+Definition with_pc (t : adm) (p : pc) : adm :=
+  mkAdm (t_sid t) (t_conn t) (t_chain t) p (t_h t) (t_jen t) (t_js t).
+Definition with_h (t : adm) (h : hstate) : adm :=
+  mkAdm (t_sid t) (t_conn t) (t_chain t) (t_pc t) h (t_jen t) (t_js t).
+Definition with_jen (t : adm) (b : bool) : adm :=
+  mkAdm (t_sid t) (t_conn t) (t_chain t) (t_pc t) (t_h t) b (t_js t).
+Definition with_js (t : adm) (js : list jthread) : adm :=
+  mkAdm (t_sid t) (t_conn t) (t_chain t) (t_pc t) (t_h t) (t_jen t) js.
+
+Definition is_hold (j : jthread) : bool := match snd j with JHold => true | _ => false end.
+(** joinMu of the socket is held by a Join goroutine *)
+Definition held (t : adm) : bool := existsb is_hold (t_js t).
 
 Definition log (o : obs) (s : server) : server :=
   mkServer (store s) (adp s) (conn_flag s) (c_socks s) (c_nsps s) (trace s ++ [o]).
@@ -214,7 +236,10 @@ Definition with_adp (a : adapter) (s : server) : server :=
 Definition join_calls (sd : sid) (calls : list (list N)) (a : adapter) : adapter :=
   fold_left (fun a rs => add_all sd (map RNamed rs) a) calls a.
 
-(** One step of the main line of an admission. *)
+Definition nonempty {A} (l : list A) : bool := match l with [] => false | _ => true end.
+
+(** One step of the main line of an admission.  A step that needs joinMu while a Join goroutine
+    holds it does not move (the goroutine is blocked on the mutex). *)
 Definition step_main (t : adm) (s : server) : adm * server :=
   let sd := t_sid t in
   match t_pc t with
@@ -222,14 +247,17 @@ Definition step_main (t : adm) (s : server) : adm * server :=
       match nth_error (t_chain t) i with
       | None => (with_pc t PStore, s)
       | Some b =>
+          if held t && nonempty (mb_joins b) then (t, s) else
           let s1 := log (OMw sd i) s in
-          let s2 := with_adp (join_calls sd (mb_joins b) (adp s1)) s1 in
+          let s2 := if t_jen t then with_adp (join_calls sd (mb_joins b) (adp s1)) s1 else s1 in
+          let t1 := with_js t (t_js t ++ map (fun rs => (rs, JNew)) (mb_async b)) in
           match mb_verdict b with
-          | Accept => (with_pc t (PMw (S i)), s2)
-          | Reject r => (with_pc t (PCleanup r), s2)
+          | Accept => (with_pc t1 (PMw (S i)), s2)
+          | Reject r => (with_pc t1 (PDisable r), s2)
           end
       end
-  | PCleanup r => (with_pc t (PSendError r), with_adp (delete_all sd (adp s)) s)
+  | PDisable r => if held t then (t, s) else (with_jen (with_pc t (PLeave r)) false, s)
+  | PLeave r => (with_pc t (PSendError r), with_adp (delete_all sd (adp s)) s)
   | PSendError r => (with_pc t (PRejected r), log (OPkt sd (PktConnectError (rej_message r))) s)
   | PRejected _ => (t, s)
   | PStore =>
@@ -239,7 +267,9 @@ Definition step_main (t : adm) (s : server) : adm * server :=
       (with_pc t PJoinOwn,
        mkServer (store s) (adp s) (conn_flag s) (c_socks s ++ [(t_conn t, sd)])
                 (set_add N.eqb (t_conn t) (c_nsps s)) (trace s))
-  | PJoinOwn => (with_pc t PSendConnect, with_adp (add_all sd [ROwn sd] (adp s)) s)
+  | PJoinOwn =>
+      if held t then (t, s) else
+      (with_pc t PSendConnect, if t_jen t then with_adp (add_all sd [ROwn sd] (adp s)) s else s)
   | PSendConnect => (with_pc t PSetConnected, log (OPkt sd (PktConnect sd)) s)
   | PSetConnected =>
       (with_pc t PSpawn,
@@ -255,10 +285,6 @@ Definition step_h (t : adm) (s : server) : adm * server :=
   | _ => (t, s)
   end.
 
-(** The system: shared namespace state + admission threads; a schedule names, per step, a thread and
-    which of its two goroutines moves. *)
-Definition sys := (server * list adm)%type.
-
 Fixpoint upd_nth {A} (n : nat) (x : A) (l : list A) : list A :=
   match l, n with
   | [], _ => []
@@ -266,22 +292,46 @@ Fixpoint upd_nth {A} (n : nat) (x : A) (l : list A) : list A :=
   | y :: l', S n' => y :: upd_nth n' x l'
   end.
 
-Definition sys_step (st : sys) (mv : nat * bool) : sys :=
+(** One step of Join goroutine j of the socket: enter Join (take joinMu if it is free; with the
+    no-op installed the call returns at once), then adapter.AddAll and return (release joinMu). *)
+Definition step_join (j : nat) (t : adm) (s : server) : adm * server :=
+  match nth_error (t_js t) j with
+  | Some (rs, JNew) =>
+      if held t then (t, s)
+      else if t_jen t then (with_js t (upd_nth j (rs, JHold) (t_js t)), s)
+      else (with_js t (upd_nth j (rs, JDone) (t_js t)), s)
+  | Some (rs, JHold) =>
+      (with_js t (upd_nth j (rs, JDone) (t_js t)),
+       with_adp (add_all (t_sid t) (map RNamed rs) (adp s)) s)
+  | _ => (t, s)
+  end.
+
+(** The system: shared namespace state + admission threads; a schedule names, per step, a thread and
+    which of its goroutines moves: the admission itself, the handler goroutine, a Join goroutine. *)
+Inductive who := WMain | WHandler | WJoin (j : nat).
+
+Definition sys := (server * list adm)%type.
+
+Definition sys_step (st : sys) (mv : nat * who) : sys :=
   let '(s, ts) := st in
   match nth_error ts (fst mv) with
   | None => st
   | Some t =>
-      let '(t', s') := if snd mv then step_h t s else step_main t s in
+      let '(t', s') := match snd mv with
+                       | WMain => step_main t s
+                       | WHandler => step_h t s
+                       | WJoin j => step_join j t s
+                       end in
       (s', upd_nth (fst mv) t' ts)
   end.
 
-Definition run (sched : list (nat * bool)) (st : sys) : sys := fold_left sys_step sched st.
+Definition run (sched : list (nat * who)) (st : sys) : sys := fold_left sys_step sched st.
 
 Definition init (ts : list adm) : sys := (server0, ts).
 
 (** A thread run alone to completion (used to predict what the rig observes for one connection). *)
-Definition solo_sched (k : nat) : list (nat * bool) :=
-  repeat (0%nat, false) (k + 9) ++ [(0%nat, true)].
+Definition solo_sched (k : nat) : list (nat * who) :=
+  repeat (0%nat, WMain) (k + 10) ++ [(0%nat, WHandler)].
 
 (** * What the public API shows about one socket id *)
 Definition listed (s : server) (x : sid) : bool := mem N.eqb x (store s).
